@@ -66,7 +66,9 @@ F1 = Fraction(1)
 # ---------------------------------------------------------------------------
 # implementation
 # ---------------------------------------------------------------------------
-def impl_fit(geom, xy, uv, wxy, wuv):
+def impl_fit(geom, xy, uv, wxy, wuv, wdtype=None):
+    """`wdtype`: numpy dtype in which integral-valued weights are handed over (the caller's weight columns may
+    be integer arrays: the fitters must not inherit that dtype for the combined weights)"""
     from tweakwcs import linearfit
     fn = {'shift': linearfit.fit_shifts, 'rshift': linearfit.fit_rshift,
           'rscale': linearfit.fit_rscale, 'general': linearfit.fit_general}[geom]
@@ -74,6 +76,9 @@ def impl_fit(geom, xy, uv, wxy, wuv):
     auv = np.array(uv, dtype=np.double).reshape(len(uv), 2)
     a = None if wxy is None else np.array(wxy, dtype=np.double)
     b = None if wuv is None else np.array(wuv, dtype=np.double)
+    if wdtype is not None:
+        a = None if a is None else a.astype(wdtype)
+        b = None if b is None else b.astype(wdtype)
     try:
         fit = fn(axy, auv, a, b)
     except linearfit.NotEnoughPointsError:
@@ -756,7 +761,15 @@ def check_case(ctx, case, lines, pending):
     geom = case['geom']
     xy, uv, wxy, wuv = case['xy'], case['uv'], case['wxy'], case['wuv']
     n = len(xy)
-    res = impl_fit(geom, xy, uv, wxy, wuv)
+    # integral weights are handed over as integer arrays in half of the cases (decided by the data, so that a
+    # case replays identically)
+    integral = [w for w in (wxy, wuv) if w is not None]
+    wdtype = None
+    if integral and all(float(v).is_integer() for w in integral for v in w):
+        wdtype = [None, np.int64, np.int32, np.int16][int(sum(sum(w) for w in integral) + n) % 4]
+    if wdtype is not None:
+        ctx.branch('weights-dtype:%s' % np.dtype(wdtype).name)
+    res = impl_fit(geom, xy, uv, wxy, wuv, wdtype)
     A = data_size(case)
     fam = case['family']
     weighted = case['wmode'] != 0
@@ -900,7 +913,10 @@ def check_case(ctx, case, lines, pending):
             return
     # a common factor of the weights is irrelevant
     if weighted and ctx.rng.random() < 0.3:
-        k = ctx.rng.choice([0.25, 3.0, 1000.0])
+        # (also factors that take the sums of weights far away from 1: a test against an absolute threshold
+        # anywhere in the fit would show)
+        k = ctx.rng.choice([0.25, 3.0, 1000.0, 2.0 ** -90, 1e-12, 1e12, 2.0 ** 80])
+        ctx.branch('weight-factor:%s' % ('extreme' if k < 1e-6 or k > 1e6 else 'moderate'))
         r2 = impl_fit(geom, xy, uv, None if wxy is None else [k * a for a in wxy],
                       None if wuv is None else [k * a for a in wuv])
         if r2[0] != 'ok':
